@@ -1904,6 +1904,366 @@ fn ser_streams(cx: &mut Ctx) {
 }
 
 // ---------------------------------------------------------------------------------------------
+// truncation at EVERY offset: every proper prefix of several valid encodings of every modelled type is fed
+// to BOTH readers (`ser::deserialize` = BinReader, and `BufReader::new(&mut bytes, version)` + `T::read` =
+// the path of p2p/src/codec.rs) at protocol versions 0, 1, 2, 3 and local (1000).  Versions 0 / 1 use the
+// fixed-width kernel layout whose unused fields are zero padding read through `Reader::read_empty_bytes`;
+// the cuts land inside that padding, inside fixed-size arrays, inside length-prefixed fields and between
+// items.  Verdict class and consumed length are compared with the model for both readers; a panic is an
+// #ORACLE-FAIL with the input, reader and version (an abort is reported by the parent process).
+
+const PVERSIONS: [u32; 5] = [0, 1, 2, 3, 1000];
+
+fn gen_output_p(rng: &mut Rng, coinbase: bool, plen: usize) -> Output {
+	let mut proof = [0u8; 675];
+	proof.copy_from_slice(&rng.bytes(675));
+	Output::new(
+		if coinbase { OutputFeatures::Coinbase } else { OutputFeatures::Plain },
+		rand_commit(rng),
+		RangeProof { proof, plen },
+	)
+}
+
+/// like `gen_tx`, with range proofs of `plen` bytes (the reader accepts any length ≤ 675) and the kernel
+/// variants cycling Plain / HeightLocked (and Coinbase first when `coinbase`)
+fn gen_tx_p(rng: &mut Rng, ni: usize, no: usize, nk: usize, coinbase: bool, plen: usize) -> Transaction {
+	let inputs: Vec<Input> = (0..ni)
+		.map(|i| Input::new(if i % 2 == 1 { OutputFeatures::Coinbase } else { OutputFeatures::Plain }, rand_commit(rng)))
+		.collect();
+	let outputs: Vec<Output> = (0..no).map(|i| gen_output_p(rng, coinbase && i == 0, plen)).collect();
+	let kernels: Vec<TxKernel> = (0..nk).map(|i| gen_kernel(rng, coinbase && i == 0)).collect();
+	Transaction::new(Inputs::from(inputs.as_slice()), &outputs, &kernels)
+}
+
+/// wire bytes of a kernel of the given feature byte at `ver` (v0/v1: 17-byte fixed layout with zero padding)
+fn kernel_bytes_variant(rng: &mut Rng, fb: u8, ver: u32) -> Vec<u8> {
+	let fee = (rng.below(1 << 30) + 1).to_be_bytes();
+	let mut b = vec![fb];
+	if ver <= 1 {
+		match fb {
+			0 => {
+				b.extend_from_slice(&fee);
+				b.extend_from_slice(&[0; 8]);
+			}
+			1 => b.extend_from_slice(&[0; 16]),
+			2 => {
+				b.extend_from_slice(&fee);
+				b.extend_from_slice(&be64(pick_u64(rng)));
+			}
+			_ => {
+				b.extend_from_slice(&fee);
+				b.extend_from_slice(&[0; 6]);
+				b.extend_from_slice(&(1 + rng.below(10080) as u16).to_be_bytes());
+			}
+		}
+	} else {
+		match fb {
+			0 => b.extend_from_slice(&fee),
+			1 => {}
+			2 => {
+				b.extend_from_slice(&fee);
+				b.extend_from_slice(&be64(pick_u64(rng)));
+			}
+			_ => {
+				b.extend_from_slice(&fee);
+				b.extend_from_slice(&(1 + rng.below(10080) as u16).to_be_bytes());
+			}
+		}
+	}
+	b.extend_from_slice(&rng.bytes(33));
+	b.extend_from_slice(&rng.bytes(64));
+	b
+}
+
+impl Ctx {
+	/// every proper prefix (and the whole encoding) through both readers, `decs` op
+	fn prefixes_s<T: Readable + Writeable>(&mut self, d: &str, ver: u32, bytes: &[u8], with_header: bool) {
+		*self.resize_cases.entry(format!("{}@{}", d, ver)).or_insert(0) += 2 * (bytes.len() as u64 + 1);
+		for i in 0..=bytes.len() {
+			let m = &bytes[..i];
+			for buf in [false, true] {
+				let ex = if with_header { header_extra(m, ver) } else { "-".to_string() };
+				self.decs::<T, _>(d, buf, ver, &ex, m, canon_v::<T>(ver));
+			}
+		}
+	}
+	/// the same through the `dec` op (native message bodies, segments)
+	fn prefixes_d<T: Readable + Writeable>(&mut self, d: &str, ver: u32, bytes: &[u8], k: usize) {
+		*self.resize_cases.entry(format!("{}@{}", d, ver)).or_insert(0) += 2 * (bytes.len() as u64 + 1);
+		for i in 0..=bytes.len() {
+			for buf in [false, true] {
+				self.dec::<T, _>(d, buf, ver, &bytes[..i], k, canon_w::<T>(ver), false);
+			}
+		}
+	}
+}
+
+fn prefix_streams(cx: &mut Ctx) {
+	let mut r = Rng::new(cx.rng.next());
+	let header = mined_header(&mut r);
+	let reps = budget(cx, 1, 3);
+	for v in PVERSIONS {
+		for _ in 0..reps {
+			// ---- kernels of every variant (NRD needs the feature flag: separate decoder name)
+			for fb in [0u8, 1, 2] {
+				let kb = kernel_bytes_variant(&mut r, fb, v);
+				cx.prefixes_s::<TxKernel>("kernel", v, &kb, false);
+			}
+			global::set_local_nrd_enabled(true);
+			let kb = kernel_bytes_variant(&mut r, 3, v);
+			cx.prefixes_s::<TxKernel>("kernel:nrd", v, &kb, false);
+			global::set_local_nrd_enabled(false);
+			cx.prefixes_s::<TxKernel>("kernel", v, &kb, false);
+			// ---- inputs, output identifiers, outputs, range proofs
+			let ib = sv(&Input::new(OutputFeatures::Coinbase, rand_commit(&mut r)), v);
+			cx.prefixes_s::<Input>("input", v, &ib, false);
+			cx.prefixes_s::<OutputIdentifier>("outid", v, &ib, false);
+			let ob = sv(&gen_output_p(&mut r, false, 675), v);
+			cx.prefixes_s::<Output>("output", v, &ob, false);
+			cx.prefixes_s::<RangeProof>("rproof", v, &ob[34..], false);
+			let ob = sv(&gen_output_p(&mut r, true, 9), v);
+			cx.prefixes_s::<Output>("output", v, &ob, false);
+			// ---- transactions: one with a full-size proof, one with two of everything and short proofs
+			let tx = gen_tx_p(&mut r, 1, 1, 1, false, 675);
+			cx.prefixes_s::<Transaction>("tx", v, &sv(&tx, v), false);
+			let tx = gen_tx_p(&mut r, 2, 2, 2, false, 12);
+			cx.prefixes_s::<Transaction>("tx", v, &sv(&tx, v), false);
+			let tx = gen_tx_p(&mut r, 0, 1, 1, false, 0);
+			cx.prefixes_s::<Transaction>("tx", v, &sv(&tx, v), false);
+		}
+		// ---- headers, blocks, compact blocks behind the mined header
+		let hb = sv(&header, v);
+		cx.prefixes_s::<BlockHeader>("header", v, &hb, false);
+		*cx.resize_cases.entry(format!("uheader@{}", v)).or_insert(0) += 2 * (hb.len() as u64 + 1);
+		for i in 0..=hb.len() {
+			for buf in [false, true] {
+				let ex = header_extra(&hb[..i], v);
+				cx.decs::<UntrustedBlockHeader, _>("uheader", buf, v, &ex, &hb[..i], |h| canon_v::<BlockHeader>(v)(BlockHeader::from(h)));
+			}
+		}
+		let shapes: Vec<(usize, usize, usize, usize)> = if cx.thorough { vec![(0, 1, 1, 7), (1, 2, 2, 20), (1, 1, 1, 675)] } else { vec![(0, 1, 1, 7), (1, 2, 2, 20)] };
+		for (ni, no, nk, plen) in shapes {
+			let tx = gen_tx_p(&mut r, ni, no, nk, true, plen);
+			let blk = Block { header: header.clone(), body: tx.body.clone() };
+			let bb = sv(&blk, v);
+			*cx.resize_cases.entry(format!("ublock@{}", v)).or_insert(0) += 2 * (bb.len() as u64 + 1);
+			// the prefixes of the header part are covered by `uheader`: start a few bytes before its end
+			for i in (hb.len() - 12)..=bb.len() {
+				for buf in [false, true] {
+					let ex = header_extra(&bb[..i], v);
+					cx.decs::<UntrustedBlock, _>("ublock", buf, v, &ex, &bb[..i], |b| canon_v::<Block>(v)(Block::from(b)));
+				}
+			}
+			let cbb = sv(&CompactBlock::from(blk), v);
+			*cx.resize_cases.entry(format!("ucblock@{}", v)).or_insert(0) += 2 * (cbb.len() as u64 + 1);
+			for i in (hb.len() - 12)..=cbb.len() {
+				for buf in [false, true] {
+					let ex = header_extra(&cbb[..i], v);
+					cx.decs::<UntrustedCompactBlock, _>("ucblock", buf, v, &ex, &cbb[..i], |b| canon_v::<CompactBlock>(v)(CompactBlock::from(b)));
+				}
+			}
+		}
+		// ---- bitmap segments (each block mode) and the four segment responses
+		let blocks = vec![bitmap_block_bytes(&mut r, 64, 1, 5), bitmap_block_bytes(&mut r, 64, 2, 3), bitmap_block_bytes(&mut r, 2, 0, 0)];
+		let bs = bitmap_segment_bytes(&mut r, &blocks, 2);
+		cx.prefixes_s::<BitmapSegment>("bitmapseg", v, &bs, false);
+		let mut x = r.bytes(32);
+		x.extend_from_slice(&bs);
+		x.extend_from_slice(&r.bytes(32));
+		cx.prefixes_s::<OutputBitmapSegmentResponse>("resp:22", v, &x, false);
+		let out_leaf = |r: &mut Rng| {
+			let mut b = vec![r.below(2) as u8];
+			b.extend_from_slice(&r.bytes(33));
+			b
+		};
+		let seg = segment_bytes_counts(&mut r, &out_leaf, 2, 2, 1);
+		cx.prefixes_d::<Segment<OutputIdentifier>>("seg:outid", v, &seg, 81920 + 1024 * 40 + 4096);
+		let mut x = r.bytes(32);
+		x.extend_from_slice(&seg);
+		x.extend_from_slice(&r.bytes(32));
+		cx.prefixes_s::<OutputSegmentResponse>("resp:24", v, &x, false);
+		let seg = segment_bytes_counts(&mut r, &|r| { let mut b = be64(40).to_vec(); b.extend_from_slice(&r.bytes(40)); b }, 1, 2, 1);
+		cx.prefixes_d::<Segment<RangeProof>>("seg:rproof", v, &seg, 81920 + 1024 * 688 + 4096);
+		let mut x = r.bytes(32);
+		x.extend_from_slice(&seg);
+		cx.prefixes_s::<SegmentResponse<RangeProof>>("resp:26", v, &x, false);
+		let seg = {
+			let i = std::cell::Cell::new(0u8);
+			segment_bytes_counts(&mut r, &|r| { i.set((i.get() + 1) % 3); kernel_bytes_variant(r, i.get(), v) }, 1, 3, 1)
+		};
+		cx.prefixes_d::<Segment<TxKernel>>("seg:kernel", v, &seg, 81920 + 1024 * 128 + 4096);
+		let mut x = r.bytes(32);
+		x.extend_from_slice(&seg);
+		cx.prefixes_s::<SegmentResponse<TxKernel>>("resp:28", v, &x, false);
+		let mut pb = be64(3).to_vec();
+		pb.extend_from_slice(&r.bytes(96));
+		cx.prefixes_d::<SegmentProof>("segproof", v, &pb, 32 * 1024 + 4096);
+		// ---- the message bodies that msg.rs defines
+		let hand = sv(
+			&Hand {
+				version: ProtocolVersion(v),
+				capabilities: Capabilities::default(),
+				nonce: r.next(),
+				genesis: hash32(&mut r),
+				total_difficulty: Difficulty::from_num(pick_u64(&mut r)),
+				sender_addr: gen_addr(&mut r),
+				receiver_addr: gen_addr(&mut r),
+				user_agent: "MW/Grin 5.4.0 é".to_string(),
+			},
+			1,
+		);
+		cx.prefixes_d::<Hand>("hand", v, &hand, 100_000 + 4096);
+		let shake = sv(
+			&Shake {
+				version: ProtocolVersion(v),
+				capabilities: Capabilities::default(),
+				genesis: hash32(&mut r),
+				total_difficulty: Difficulty::from_num(pick_u64(&mut r)),
+				user_agent: "MW/Grin 5.4.0".to_string(),
+			},
+			1,
+		);
+		cx.prefixes_d::<Shake>("shake", v, &shake, 100_000 + 4096);
+		for _ in 0..3 {
+			cx.prefixes_d::<PeerAddr>("peeraddr", v, &sv(&gen_addr(&mut r), 1), 4096);
+		}
+		cx.prefixes_d::<PeerError>("peererror", v, &sv(&PeerError { code: 7, message: "bad things".to_string() }, 1), 100_000 + 4096);
+		cx.prefixes_d::<SegmentIdentifier>("segid", v, &sv(&SegmentIdentifier { height: 9, idx: pick_u64(&mut r) }, 1), 4096);
+		cx.prefixes_d::<Ping>("body:3", v, &sv(&Ping { total_difficulty: Difficulty::from_num(pick_u64(&mut r)), height: pick_u64(&mut r) }, 1), 4096);
+		cx.prefixes_d::<Pong>("body:4", v, &sv(&Pong { total_difficulty: Difficulty::from_num(pick_u64(&mut r)), height: pick_u64(&mut r) }, 1), 4096);
+		cx.prefixes_d::<GetPeerAddrs>("body:5", v, &sv(&GetPeerAddrs { capabilities: Capabilities::default() }, 1), 4096);
+		cx.prefixes_d::<PeerAddrs>("body:6", v, &sv(&PeerAddrs { peers: (0..4).map(|_| gen_addr(&mut r)).collect() }, 1), 8192 + 4096);
+		cx.prefixes_d::<Locator>("body:7", v, &sv(&Locator { hashes: (0..3).map(|_| hash32(&mut r)).collect() }, 1), 4096);
+		cx.prefixes_d::<Hash>("body:10", v, &sv(&hash32(&mut r), 1), 4096);
+		cx.prefixes_d::<TxHashSetRequest>("body:16", v, &sv(&TxHashSetRequest { hash: hash32(&mut r), height: pick_u64(&mut r) }, 1), 4096);
+		cx.prefixes_d::<TxHashSetArchive>("body:17", v, &sv(&TxHashSetArchive { hash: hash32(&mut r), height: 5, bytes: pick_u64(&mut r) }, 1), 4096);
+		cx.prefixes_d::<BanReason>("body:18", v, &sv(&BanReason { ban_reason: ReasonForBan::BadBlock }, 1), 4096);
+		cx.prefixes_d::<SegmentRequest>("body:21", v, &sv(&SegmentRequest { block_hash: hash32(&mut r), identifier: SegmentIdentifier { height: 11, idx: 3 } }, 1), 4096);
+		cx.prefixes_d::<MerkleProof>("merkle", v, &sv(&MerkleProof { mmr_size: 11, path: (0..3).map(|_| hash32(&mut r)).collect() }, 1), 4096);
+	}
+	let rc = std::mem::take(&mut cx.resize_cases);
+	let total: u64 = rc.values().sum();
+	let parts: Vec<String> = rc.iter().map(|(d, n)| format!("{}={}", d, n)).collect();
+	cx.out.raw(&format!("#STAT every-prefix cases (decoder@version = prefixes x 2 readers), total {}: {}", total, parts.join(" ")));
+}
+
+// ---------------------------------------------------------------------------------------------
+// the `Reader` methods the payload decoders use, called once directly on each concrete reader (BinReader,
+// BufReader, StreamingReader) on buffers that are exactly long enough, one byte short, and empty:
+//   codec rdr <method> <bin|buf|stream> <arg> <hex> => ok <value> <consumed> | err <E> | panic
+
+fn reader_method_lines(cx: &mut Ctx) {
+	use grin_core::ser::{BinReader, Reader, StreamingReader};
+	let mut r = Rng::new(cx.rng.next());
+	let mut jobs: Vec<(&str, u64, Vec<u8>)> = vec![];
+	for (m, w) in [("u8", 1usize), ("u16", 2), ("u32", 4), ("u64", 8), ("i64", 8), ("i32", 4)] {
+		let mut full = r.bytes(w);
+		if m == "i64" || m == "i32" {
+			full[0] |= 0x80;
+		}
+		jobs.push((m, 0, full.clone()));
+		jobs.push((m, 0, full[..w - 1].to_vec()));
+		jobs.push((m, 0, vec![]));
+	}
+	for n in [0u64, 1, 4, 33, 675] {
+		let full = r.bytes(n as usize);
+		jobs.push(("fixed", n, full.clone()));
+		if n > 0 {
+			jobs.push(("fixed", n, full[..n as usize - 1].to_vec()));
+			jobs.push(("fixed", n, vec![]));
+		}
+		let mut p = be64(n).to_vec();
+		p.extend_from_slice(&full);
+		jobs.push(("lenprefix", 0, p.clone()));
+		jobs.push(("lenprefix", 0, p[..p.len() - 1].to_vec()));
+		for cut in [0usize, 7, 8] {
+			jobs.push(("lenprefix", 0, p[..cut.min(p.len())].to_vec()));
+		}
+	}
+	for n in [0u64, 1, 6, 8, 16] {
+		let z = vec![0u8; n as usize];
+		jobs.push(("empty", n, z.clone()));
+		if n > 0 {
+			jobs.push(("empty", n, z[..n as usize - 1].to_vec()));
+			jobs.push(("empty", n, vec![]));
+			for pos in [0usize, n as usize - 1] {
+				let mut nz = z.clone();
+				nz[pos] = 1 + r.below(255) as u8;
+				jobs.push(("empty", n, nz.clone()));
+				// a non-zero byte followed by a truncated tail
+				jobs.push(("empty", n, nz[..pos + 1].to_vec()));
+			}
+		}
+	}
+	for (val, have) in [(7u64, vec![7u8]), (7, vec![8]), (7, vec![]), (0, vec![0, 1]), (255, vec![255])] {
+		jobs.push(("expect", val, have));
+	}
+	let mut n_lines = 0u64;
+	for (m, arg, bytes) in jobs.iter() {
+		for rdk in ["bin", "buf", "stream"] {
+			let owned = bytes.clone();
+			let m2 = m.to_string();
+			let arg2 = *arg;
+			let (res, _maxreq) = measured(move || {
+				fn run<R: Reader>(rd: &mut R, m: &str, arg: u64) -> Result<String, ser::Error> {
+					Ok(match m {
+						"u8" => rd.read_u8()?.to_string(),
+						"u16" => rd.read_u16()?.to_string(),
+						"u32" => rd.read_u32()?.to_string(),
+						"u64" => rd.read_u64()?.to_string(),
+						"i64" => rd.read_i64()?.to_string(),
+						"i32" => rd.read_i32()?.to_string(),
+						"fixed" => hex(&rd.read_fixed_bytes(arg as usize)?),
+						"lenprefix" => hex(&rd.read_bytes_len_prefix()?),
+						"empty" => {
+							rd.read_empty_bytes(arg as usize)?;
+							"-".to_string()
+						}
+						_ => rd.expect_u8(arg as u8)?.to_string(),
+					})
+				}
+				match rdk {
+					"bin" => {
+						let mut slice = &owned[..];
+						let mut rd = BinReader::new(&mut slice, ProtocolVersion(1), DeserializationMode::default());
+						let v = run(&mut rd, &m2, arg2);
+						v.map(|s| (s, owned.len() - slice.len()))
+					}
+					"buf" => {
+						let mut b = bytes::Bytes::copy_from_slice(&owned);
+						let mut rd = BufReader::new(&mut b, ProtocolVersion(1));
+						let v = run(&mut rd, &m2, arg2);
+						let n = rd.bytes_read() as usize;
+						v.map(|s| (s, n))
+					}
+					_ => {
+						let mut slice = &owned[..];
+						let v = {
+							let mut rd = StreamingReader::new(&mut slice, ProtocolVersion(1));
+							run(&mut rd, &m2, arg2)
+						};
+						v.map(|s| (s, owned.len() - slice.len()))
+					}
+				}
+			});
+			let lhs = format!("codec rdr {} {} {} {}", m, rdk, arg, hex(bytes));
+			let rhs = match res {
+				Ok(Ok((v, n))) => format!("ok {} {}", v, n),
+				Ok(Err(e)) => format!("err {}", err_name(&e)),
+				Err(p) => {
+					cx.oracle_fails += 1;
+					cx.out.raw(&format!("#ORACLE-FAIL C11 panic in Reader::{} of {} ({}): {}", m, rdk, p.replace('\n', " "), lhs));
+					"panic".to_string()
+				}
+			};
+			cx.out.line(&lhs, &rhs);
+			n_lines += 1;
+		}
+	}
+	cx.out.raw(&format!("#STAT Reader methods called directly on BinReader / BufReader / StreamingReader (exact, one byte short, empty buffers): {} lines", n_lines));
+}
+
+// ---------------------------------------------------------------------------------------------
 // unknown message types with announced lengths around and far above the limit: the refusal must
 // happen at the header, on the handshake path (`read_header`, `read_message` -> `read_discard`) and in
 // the real `Codec`, without the announced length ever reaching the allocator
@@ -2114,6 +2474,8 @@ fn child_main(mode: &str) {
 			payload_streams(&mut cx);
 			consistent_resize_streams(&mut cx);
 			ser_streams(&mut cx);
+			prefix_streams(&mut cx);
+			reader_method_lines(&mut cx);
 			unknown_type_oracle(&mut cx);
 			probe_in_process(&mut cx);
 		}
